@@ -13,6 +13,14 @@ if [ ! -f Cargo.lock ]; then cp /repo/Cargo.lock Cargo.lock; fi
 	cargo build --release --offline 2>&1 | grep -Ev '^\s*(warning|-->|\||=|[0-9]+ \|)' || true
 	test -x /verif/.build/target/release/xtsim
 	case "$ID" in
+	C17|all)
+		# Second and third pass of C17: the simulator under AddressSanitizer and under Miri.
+		RUSTFLAGS="-Zsanitizer=address" cargo +nightly build --release --offline --target x86_64-unknown-linux-gnu --target-dir /verif/.build/asan-target 2>&1 | grep -Ev '^\s*(warning|-->|\||=|[0-9]+ \|)' | tail -3 || true
+		test -x /verif/.build/asan-target/x86_64-unknown-linux-gnu/release/xtsim
+		MIRIFLAGS="-Zmiri-disable-isolation" cargo +nightly miri run --offline --target-dir /verif/.build/miri-target -- list > /dev/null 2>&1 || true
+		;;
+	esac
+	case "$ID" in
 	C04|C13|C14|C15|C16|C18|all|bins)
 		if [ -f /verif/shim/xtsim_io.c ]; then
 			gcc -O2 -fPIC -shared -o /verif/.build/libxtsim_io.so /verif/shim/xtsim_io.c -ldl
